@@ -210,7 +210,7 @@ func genUpCfg(r *gen.R) upCfg {
 		u.CheckOrigin = 1 + r.Intn(2)
 	}
 	u.WarmUp = r.Chance(1, 5)
-	switch r.Intn(6) {
+	switch r.Intn(7) {
 	case 0:
 		u.RespNil = true
 	case 1:
@@ -223,6 +223,14 @@ func genUpCfg(r *gen.R) upCfg {
 			k := []string{"X-App", "Set-Cookie", "X-Trace-Id", "Server"}[r.Intn(4)]
 			u.RespHdr[k] = append(u.RespHdr[k], hostileValues[r.Intn(len(hostileValues))])
 		}
+	case 5:
+		if r.Bool() {
+			// documented as unsupported: whatever Upgrade does with it, a 101 must not announce
+			// permessage-deflate unless the client offered it and the server enabled it
+			u.RespHdr = map[string][]string{"Sec-Websocket-Extensions": {"permessage-deflate"}, "X-App": {"1"}}
+			break
+		}
+		fallthrough
 	default:
 		u.RespHdr = map[string][]string{"Sec-Websocket-Protocol": {[]string{"chat", "app-chosen", "chat\r\nX-Injected: 1", "a\nb", "v\x00"}[r.Intn(5)]}}
 		if r.Bool() {
@@ -848,7 +856,7 @@ func c12Check101(out *core.Out, q *hsReq, u upCfg, o *hsOutcome, fail func(strin
 	wantApp := map[string]int{}
 	napp := 0
 	for k, vs := range u.RespHdr {
-		if k == "Sec-Websocket-Protocol" {
+		if k == "Sec-Websocket-Protocol" || k == "Sec-Websocket-Extensions" {
 			continue
 		}
 		wantApp[strings.ToLower(k)] += len(vs)
